@@ -68,6 +68,9 @@ structure Sheet where
   /-- `Worksheet.links`: (row, column, target) — no modelled operation creates one, but
       `delete_sheet` and its undo carry them along (the undo restores them since the fix of F01d) -/
   links : List (Int × Int × String) := []
+  /-- plain cell contents (text a user typed that implies no format); `none` = no cell, or an empty
+      cell: the two are not distinguished here, as in the observable snapshot -/
+  cellAt : Int → Int → Option String := fun _ _ => none
 
 /-- `types.rs::DefinedName` (the formula is an opaque text here) -/
 structure DefName where
@@ -119,6 +122,8 @@ inductive Diff where
   | setRowHidden (sheet : Nat) (row : Int) (old new : Bool)
   | moveRows (sheet : Nat) (row : Int) (rowCount : Int) (delta : Int)
   | moveColumns (sheet : Nat) (column : Int) (columnCount : Int) (delta : Int)
+  | setCellValue (sheet : Nat) (row column : Int) (old : Option String) (new : String)
+  | rangeClearContents (sheet : Nat) (row column width height : Int) (old : Int → Int → Option String)
 
 /-- the modelled `pub fn`s of `UserModel` -/
 inductive Op where
@@ -140,6 +145,8 @@ inductive Op where
   | setRowsHidden (sheet : Nat) (r1 r2 : Int) (hidden : Bool)
   | moveRows (sheet : Nat) (row : Int) (rowCount : Int) (delta : Int)
   | moveColumns (sheet : Nat) (column : Int) (columnCount : Int) (delta : Int)
+  | setPlainInput (sheet : Nat) (row column : Int) (text : String)
+  | rangeClearContents (sheet : Nat) (row column width height : Int)
   deriving Repr
 
 abbrev Out := OpOut Book Diff Err
@@ -161,7 +168,7 @@ def setSheet (b : Book) (i : Nat) (s : Sheet) : Book := { b with sheets := b.she
 def emptySheet (name : String) (id : Nat) : Sheet :=
   { name := name, id := id, state := .visible, color := "", frozenRows := 0, frozenCols := 0,
     grid := true, colAt := fun _ => ColView.default, rowAt := fun _ => RowView.default,
-    links := [] }
+    links := [], cellAt := fun _ _ => none }
 
 /-! ### model-level functions (`model.rs`, `new_empty.rs`, `worksheet.rs`) -/
 
@@ -390,7 +397,11 @@ def mMoveRows (b : Book) (sheet : Nat) (row count delta : Int) : Except Err Book
   else
     match getSheet b sheet with
     | .error e => .error e
-    | .ok s => .ok (setSheet b sheet { s with rowAt := moveRowsLoop delta count.toNat row s.rowAt })
+    | .ok s =>
+      .ok (setSheet b sheet
+        { s with
+          rowAt := moveRowsLoop delta count.toNat row s.rowAt,
+          cellAt := moveRowsLoop delta count.toNat row s.cellAt })
 
 /-- the scan of `common.rs::move_rows_action` that skips hidden rows in the landing zone:
     `n` rows starting at `r`; `is_row_hidden` fails on a row outside the grid -/
@@ -410,7 +421,11 @@ def mMoveColumns (b : Book) (sheet : Nat) (column count delta : Int) : Except Er
   else
     match getSheet b sheet with
     | .error e => .error e
-    | .ok s => .ok (setSheet b sheet { s with colAt := moveRowsLoop delta count.toNat column s.colAt })
+    | .ok s =>
+      .ok (setSheet b sheet
+        { s with
+          colAt := moveRowsLoop delta count.toNat column s.colAt,
+          cellAt := fun r => moveRowsLoop delta count.toNat column (s.cellAt r) })
 
 /-- the scan of `common.rs::move_columns_action` that skips hidden columns in the landing zone -/
 def hiddenAdjustCols (s : Sheet) (step : Int) : Nat → Int → Int → Except Err Int
@@ -418,6 +433,41 @@ def hiddenAdjustCols (s : Sheet) (step : Int) : Nat → Int → Int → Except E
   | n + 1, c, acc =>
     if !validCol c then .error .invalidColumn
     else hiddenAdjustCols s step n (c + 1) (if (s.colAt c).hidden then acc + step else acc)
+
+def upd2 (f : Int → Int → Option String) (r c : Int) (v : Option String) : Int → Int → Option String :=
+  fun x y => if x = r ∧ y = c then v else f x y
+
+def inArea (row column width height r c : Int) : Bool :=
+  decide (row ≤ r) && decide (r < row + height) && decide (column ≤ c) && decide (c < column + width)
+
+/-- models `model.rs::set_user_input` for a plain text (and `update_cell` / `remove_cell` of the
+    undo arm): the cell holds `v`, `none` removes it -/
+def mSetCell (b : Book) (sheet : Nat) (r c : Int) (v : Option String) : Except Err Book :=
+  match getSheet b sheet with
+  | .error e => .error e
+  | .ok s =>
+    if !validRow r then .error .invalidRow
+    else if !validCol c then .error .invalidColumn
+    else .ok (setSheet b sheet { s with cellAt := upd2 s.cellAt r c v })
+
+/-- models `model.rs::range_clear_contents` on plain cells: every cell of the area is emptied -/
+def mClearArea (b : Book) (sheet : Nat) (row column width height : Int) : Except Err Book :=
+  match getSheet b sheet with
+  | .error e => .error e
+  | .ok s =>
+    .ok (setSheet b sheet
+      { s with cellAt := fun r c => if inArea row column width height r c then none else s.cellAt r c })
+
+/-- models the `RangeClearContents` arm of `apply_undo_diff_list`: the saved cells that existed are
+    written back (`update_cell`), the others are left alone -/
+def mRestoreArea (b : Book) (sheet : Nat) (row column width height : Int)
+    (old : Int → Int → Option String) : Except Err Book :=
+  match getSheet b sheet with
+  | .error e => .error e
+  | .ok s =>
+    .ok (setSheet b sheet
+      { s with cellAt := fun r c =>
+          if inArea row column width height r c && (old r c).isSome then old r c else s.cellAt r c })
 
 /-! ### replay of one diff (`undo_redo.rs`) -/
 
@@ -441,6 +491,8 @@ def fwd1 (env : Env) (b : Book) : Diff → Except Err Book
   | .setRowHidden sheet r _ new => mSetRowHidden b sheet r new
   | .moveRows sheet row count delta => mMoveRows b sheet row count delta
   | .moveColumns sheet column count delta => mMoveColumns b sheet column count delta
+  | .setCellValue sheet r c _ new => mSetCell b sheet r c (some new)
+  | .rangeClearContents sheet r c w h _ => mClearArea b sheet r c w h
 
 /-- models one arm of `apply_undo_diff_list` -/
 def back1 (env : Env) (b : Book) : Diff → Except Err Book
@@ -468,7 +520,7 @@ def back1 (env : Env) (b : Book) : Diff → Except Err Book
           { s with
             rowAt := old.rowAt, colAt := old.colAt,
             grid := old.grid, frozenCols := old.frozenCols, frozenRows := old.frozenRows,
-            state := old.state, color := old.color, links := old.links })
+            state := old.state, color := old.color, links := old.links, cellAt := old.cellAt })
   | .deleteDefinedName name scope old => mNewDefinedName env b name scope old
   | .setColumnWidth sheet c old _ => mSetColumnWidth b sheet c old
   | .setRowHeight sheet r old _ => mSetRowHeight b sheet r old
@@ -477,6 +529,9 @@ def back1 (env : Env) (b : Book) : Diff → Except Err Book
   -- `move_rows_action(sheet, row + delta, row_count, -delta)` at the Model level (no hidden-row scan)
   | .moveRows sheet row count delta => mMoveRows b sheet (row + delta) count (-delta)
   | .moveColumns sheet column count delta => mMoveColumns b sheet (column + delta) count (-delta)
+  -- `Some(cell)` → `update_cell`, `None` → `remove_cell` (since the fix of F01a)
+  | .setCellValue sheet r c old _ => mSetCell b sheet r c old
+  | .rangeClearContents sheet r c w h old => mRestoreArea b sheet r c w h old
 
 /-- the loop of `apply_diff_list`: front to back, `?` stops at the first error -/
 def foldDiffs (f : Book → Diff → Except Err Book) : Book → List Diff → Applied Book
@@ -747,6 +802,51 @@ def moveColumns (b : Book) (sheet : Nat) (column count delta : Int) : Out :=
         | .error e => fail b e
         | .ok b' => done b' [.moveColumns sheet column count nd]
 
+/-- the height `set_user_input` needs for one line of the default font: `8 + font size` -/
+def ONE_LINE_HEIGHT : Int := 20
+
+/-- models `common.rs::set_user_input` for a plain one-line text (no implied format, no link):
+    validate, remember the old cell, write, auto-fit the row (compared with the row's ACTUAL height;
+    recorded as a second diff) -/
+def setPlainInput (b : Book) (sheet : Nat) (r c : Int) (text : String) : Out :=
+  if !validCol c then fail b .invalidColumn
+  else if !validRow r then fail b .invalidRow
+  else
+    match getSheet b sheet with
+    | .error e => fail b e
+    | .ok s =>
+      match mSetCell b sheet r c (some text) with
+      | .error e => fail b e
+      | .ok b1 =>
+        if (s.rowAt r).height < ONE_LINE_HEIGHT then
+          match mSetRowHeight b1 sheet r ONE_LINE_HEIGHT with
+          | .error e => ⟨b1, none, some e⟩
+          | .ok b2 => done b2 [.setCellValue sheet r c (s.cellAt r c) text,
+              .setRowHeight sheet r (s.rowAt r).height ONE_LINE_HEIGHT]
+        else done b1 [.setCellValue sheet r c (s.cellAt r c) text]
+
+/-- `common.rs::validate_area` -/
+def checkArea (b : Book) (sheet : Nat) (row column width height : Int) : Option Err :=
+  match getSheet b sheet with
+  | .error e => some e
+  | .ok _ =>
+    if 0 < width && 0 < height &&
+        (!validRow row || !validCol column || !validRow (row + height - 1) || !validCol (column + width - 1))
+    then some .invalidRow else none
+
+/-- models `common.rs::range_clear_contents` on plain cells (the `SetCellLink` diffs for links inside
+    the area are not modelled: `dom` asks for a sheet without links) -/
+def rangeClearContents (b : Book) (sheet : Nat) (row column width height : Int) : Out :=
+  match checkArea b sheet row column width height with
+  | some e => fail b e
+  | none =>
+    match getSheet b sheet with
+    | .error e => fail b e
+    | .ok s =>
+      match mClearArea b sheet row column width height with
+      | .error e => fail b e
+      | .ok b' => done b' [.rangeClearContents sheet row column width height s.cellAt]
+
 def doOp (env : Env) (b : Book) : Op → Out
   | .setName n => setName b n
   | .setTimezone tz => setTimezone env b tz
@@ -766,6 +866,8 @@ def doOp (env : Env) (b : Book) : Op → Out
   | .setRowsHidden s r1 r2 h => setRowsHidden b s r1 r2 h
   | .moveRows s r n d => moveRows b s r n d
   | .moveColumns s c n d => moveColumns b s c n d
+  | .setPlainInput s r c t => setPlainInput b s r c t
+  | .rangeClearContents s r c w h => rangeClearContents b s r c w h
 
 /-- the concrete system -/
 def sys (env : Env) : Sys Book Diff Op Err :=
